@@ -1,42 +1,9 @@
 (* Stack-manipulation instructions: every form the assembler accepts, against its documented
    effect, for every stack (docs/src/user_docs/assembly/stack_manipulation.md). *)
 From Coq Require Import ZArith List Bool Arith Lia String.
-From MV Require Import Base.Field Core.Op Core.Rpo Vm.Pure Vm.PureProps Gen.AsmGen Asm.Instr.
+From MV Require Import Base.Field Core.Op Core.Rpo Vm.Pure Vm.PureProps Gen.AsmGen Asm.Instr Asm.SpecDefs.
 Import ListNotations.
 Open Scope Z_scope.
-
-Definition no_pre : list Z -> option perr := fun _ => None.
-
-(* list surgery used by the specifications *)
-Definition nz (xs : list Z) (i : nat) : Z := nth i xs 0.
-Fixpoint remove_at (i : nat) (xs : list Z) : list Z :=
-  match xs, i with
-  | [], _ => []
-  | _ :: t, O => t
-  | h :: t, S i' => h :: remove_at i' t
-  end.
-Fixpoint insert_at (i : nat) (x : Z) (xs : list Z) : list Z :=
-  match i with
-  | O => x :: xs
-  | S i' => match xs with [] => [x] | h :: t => h :: insert_at i' x t end
-  end.
-Fixpoint set_at (i : nat) (x : Z) (xs : list Z) : list Z :=
-  match xs, i with
-  | [], _ => []
-  | _ :: t, O => x :: t
-  | h :: t, S i' => h :: set_at i' x t
-  end.
-Definition wordn (xs : list Z) (w : nat) : list Z := firstn 4 (skipn (4 * w) xs).
-
-Definition spec_dup (n : nat) (xs : list Z) : list Z := nz xs n :: xs.
-Definition spec_swap (n : nat) (xs : list Z) : list Z := set_at n (nz xs 0) (set_at 0 (nz xs n) xs).
-Definition spec_movup (n : nat) (xs : list Z) : list Z := nz xs n :: remove_at n xs.
-Definition spec_movdn (n : nat) (xs : list Z) : list Z := insert_at n (nz xs 0) (tl xs).
-Definition spec_dupw (n : nat) (xs : list Z) : list Z := wordn xs n ++ xs.
-Definition spec_swapw (n : nat) (xs : list Z) : list Z :=
-  wordn xs n ++ firstn (4 * (n - 1)) (skipn 4 xs) ++ wordn xs 0.
-Definition spec_movupw (n : nat) (xs : list Z) : list Z := wordn xs n ++ firstn (4 * n) xs.
-Definition spec_movdnw (n : nat) (xs : list Z) : list Z := skipn 4 xs ++ wordn xs 0.
 
 Ltac d16 l Hl := do 16 (destruct l as [|? l]; [cbn in Hl; lia|]).
 
